@@ -229,7 +229,16 @@ def expected_status(m, writer):
     return {"state": "progress", "status": dict(j.get("info", {})) if j.get("info") else mzinfo()}
 
 
-def judge(w, cfg):
+def status_polls(w):
+    """what a polling client does between any two events: ask for the status of both writers (read-only by contract)"""
+    for wr in WRITERS:
+        try:
+            w.app.do_render_status(_cid(), {"writer": wr}, is_new=False)
+        except Exception:
+            pass
+
+
+def judge(w, cfg, twin=True):
     from mwlib.core import nserve
     a = X.abstract(w)
     wq = w.wq
@@ -279,6 +288,22 @@ def judge(w, cfg):
         viol.append(("C19", "status-raises", "do_render_status(unknown) raised %s: %s" % (type(exc).__name__, exc), None))
     a["extra"]["seen"] = None
     w.c19_states = tuple(sorted(seen.items()))
+    # the same history with a status poll in EVERY intermediate quiescent state: status requests are read-only, so the
+    # polled twin must reach the same state and give answers that are right for its own jobs
+    hist = list(getattr(w, "history", ()))
+    if twin and hist:
+        w2 = new_world()
+        try:
+            for events, choices in hist:
+                X.run_poll(w2, events, choices)
+                status_polls(w2)
+            a2, _, viol2 = judge(w2, cfg, twin=False)
+            for (f, sg, msg, idx) in viol2:
+                viol.append((f, "polled:" + sg, "with a status poll after every event: " + msg, idx))
+            if X.state_key(a2) != X.state_key(a) and not viol2:
+                viol.append(("C19", "poll-not-read-only", "status polls between the events change the reached state", None))
+        finally:
+            w2.close()
 
     class M:
         pulling = {}
@@ -306,9 +331,9 @@ def install_hooks():
 
 def make_cfg(tier):
     if tier == "quick":
-        return X.Cfg(bound=12, maxpoll=1, maxrender=1, finish_results=("full", "none", "err"), wd_advances=(20.0, 3700.0), probe=True), 50
+        return X.Cfg(bound=12, maxpoll=1, maxrender=1, finish_results=("full", "none", "err"), wd_advances=(20.0, 3700.0), probe=True), 240
     return X.Cfg(bound=16, maxpoll=1, maxrender=2, finish_results=("full", "nofn", "none", "empty", "err"),
-                 wd_advances=(20.0, 3700.0), probe=True), 1200
+                 wd_advances=(20.0, 3700.0), probe=True), 3600
 
 
 # ------------------------------------------------------------------ filenames
